@@ -532,13 +532,13 @@ fn generic(g: &mut SplitMix64, ncases: usize) {
                 let res = if r == 0 {
                     // constant single-site term (all 4 entries equal)
                     let v = g.below(nvars as u64) as usize;
-                    vars_list.push(vec![v]);
+                    vars_list.push(reg(vec![v], vec![w; 4]));
                     kind = "generic_add_constant_term";
                     q.make_interaction(vec![w; 4], vec![v])
                 } else if r == 1 {
                     // full matrix, equal diagonal, other off-diagonal entries
                     let v = g.below(nvars as u64) as usize;
-                    vars_list.push(vec![v]);
+                    vars_list.push(reg(vec![v], vec![w, 0.5, 0.5, w]));
                     kind = "generic_add_equal_diagonal_full";
                     q.make_interaction(vec![w, 0.5, 0.5, w], vec![v])
                 } else if r == 2 {
@@ -551,12 +551,12 @@ fn generic(g: &mut SplitMix64, ncases: usize) {
                             vars.push(v);
                         }
                     }
-                    vars_list.push(vars.clone());
+                    vars_list.push(reg(vars.clone(), full_from_diag(&vec![w; 1 << k])));
                     kind = "generic_add_constant_diagonal";
                     q.make_diagonal_interaction(vec![w; 1 << k], vars)
                 } else {
                     let (mat, vars, d) = gen_interaction(g, nvars);
-                    vars_list.push(vars.clone());
+                    vars_list.push(reg(vars.clone(), mat.clone()));
                     kind = "generic_add_state_dependent";
                     add_interaction(q, &mat, &vars, d)
                 };
@@ -581,7 +581,7 @@ fn generic(g: &mut SplitMix64, ncases: usize) {
             }
             let log = rng.take_log();
             let out = RunOut { slots: smp.slots(), state: smp.state(), n: smp.get_n(), log: log.clone(), calls: vec![] };
-            let mut oracle = sweep_oracle(&cfg, &out);
+            let mut oracle = check_registered(&smp).and_then(|_| sweep_oracle(&cfg, &out));
             if oracle.is_ok() {
                 oracle = check_table(&smp.table(), &cfg.bonds, true);
             }
@@ -799,7 +799,7 @@ fn constant_terms(g: &mut SplitMix64, ncases: usize) {
             let mut vl = vec![];
             for (mat, vars, d) in spec.iter() {
                 add_interaction(&mut q, mat, vars, *d).unwrap();
-                vl.push(vars.clone());
+                vl.push(reg(vars.clone(), mat.clone()));
             }
             Smp::Gen(q, vl)
         };
